@@ -33,7 +33,7 @@ COMPONENTS = {"real": ["smpl_extract (all of it: actions, akai/*, util/*, struct
 ASSUMPTIONS = ["file, volume and stem names are [A-Z0-9] words with single inner spaces (sanitising is the identity on them); hostile names are C05/C06",
                "root key/semitone bytes are kept where the WAV smpl note stays in 0..127 (other values are C04's sweep)",
                "stereo pairs have equal length and equal rate"]
-EXPECTED_PROBES = ["head_not_lowest", "exact_fill", "multi_partition", "reserved_run_dir", "start_gt_0", "end_lt_n", "empty_volume",
+EXPECTED_PROBES = ["exported_twice", "head_not_lowest", "exact_fill", "multi_partition", "reserved_run_dir", "start_gt_0", "end_lt_n", "empty_volume",
                    "stereo_pair", "rate_zero", "dirs_after_data", "knob_not_default", "zero_length_sample", "cli_crosscheck", "dir_spans_sectors", "file_ge_4_sectors", "empty_window"]
 SHRINK = {"max_attempts": 250, "max_seconds": 60.0,
           "simple_values": {"policy": ["contiguous"], "mode": ["chain"], "block": [4096], "rate": [44100]}}
@@ -43,7 +43,7 @@ CLI_EVERY = 50
 
 def gen(rng: random.Random, tier: str, index: int) -> dict:
     model = gen_buildable(rng, many_files=0.012, allow_empty_window=True)
-    return {"model": model, "block": pick_knob(rng, model), "cli": index % CLI_EVERY == 7}
+    return {"model": model, "block": pick_knob(rng, model), "cli": index % CLI_EVERY == 7, "twice": index % 3 == 1}
 
 
 def total_words(model: dict) -> int:
@@ -202,6 +202,13 @@ def run(sc: dict) -> RunResult:
             if er.budget:
                 res.add(PROP, "no_result", "export exceeded the step budget of %d" % budget)
             check_export(res, PROP, exp, er)
+            if sc.get("twice") and not res.violations:
+                # the same opened image exported once more yields the same files
+                res.probes["exported_twice"] += 1
+                er_b = tool.run_export(image, sb, "again")
+                if er_b.budget:
+                    res.add(PROP, "no_result", "second export exceeded the step budget of %d" % budget)
+                check_export(res, PROP, exp, er_b, ctx="[second export of the same image] ")
             if er.escapes:
                 res.add(PROP, "write_outside_destination", repr(er.escapes[:3]))
     # seam invariant: only allocated bytes of the image are ever read
